@@ -186,3 +186,8 @@ pub enum TryReserveError {
         layout: alloc::alloc::Layout,
     },
 }
+
+#[cfg(hashbrown_verif)]
+pub use crate::raw::verif_hooks as verif;
+#[cfg(all(hashbrown_verif, feature = "rayon"))]
+pub use crate::external_trait_impls::rayon::raw::verif_hooks as verif_rayon;
